@@ -147,7 +147,63 @@ def supplied_bytes_unchanged(rep):
                               {"kind": "supply", "cls": cls.__name__, "raw": raw.hex()})
 
 
+def concurrent(rep):
+    """Session-Ids generated from two threads at the same time (spec/SessionConc.tla), one preemption at every bytecode of
+    bromelia/_internal_utils.py, each execution in a child forked from the untouched process; then threads that generate one
+    after the other.  Every id of the process must be distinct and well-formed."""
+    from engine import concur
+    for use, expect in (("TRUE", None), ("FALSE", "UniqueConc")):
+        cfg = f"SPECIFICATION Spec\nCONSTANTS Threads = {{1, 2}}\n PerThread = 2\n UseLock = {use}\nINVARIANT UniqueConc\nCHECK_DEADLOCK FALSE\n"
+        res, _ = tlc.run("SessionConc", cfg, workers=2, timeout=300)
+        if expect is None:
+            tlc.must_ok(res, "SessionConc")
+            rep.tlc("SessionConc (2 threads x 2 generations, locked)", res)
+        elif res.violated != expect:
+            raise tlc.TlcError("vacuity self-test: the unlocked counter does not violate UniqueConc")
+    rep.notes["unlocked_counter_violates"] = "UniqueConc"
+
+    def gen_job(route, ident):
+        def job():
+            from bromelia.avps import SessionIdAVP, AcctMultiSessionIdAVP
+            out = []
+            for i in range(3):
+                if route == "avp":
+                    out.append(SessionIdAVP(ident).data.decode())
+                elif route == "acct":
+                    out.append(AcctMultiSessionIdAVP(ident).data.decode())
+                else:
+                    from bromelia.lib.etsi_3gpp_s6a import AIR
+                    m = AIR(session_id=ident, origin_host=ident, origin_realm="example", destination_realm="example", user_name="1",
+                            visited_plmn_id=b"\x00\x01\x02")
+                    out.append(m.session_id_avp.data.decode())
+            return out
+        return job
+
+    def judge(ra, rb):
+        if ra[0] != "ok" or rb[0] != "ok":
+            return f"generation raised: {ra} / {rb}"
+        ids = eval(ra[1]) + eval(rb[1])
+        if len(set(ids)) != len(ids):
+            dup = sorted({x for x in ids if ids.count(x) > 1})
+            return f"the same Session-Id was generated twice in one process: {dup[:2]} (all: {ids})"
+        for x in ids:
+            parts = x.split(";")
+            if len(parts) < 3 or not parts[1].isdigit() or not parts[2].isdigit():
+                return f"malformed Session-Id {x!r}"
+        return None
+    pairs = [("two threads creating Session-Id AVPs for the same identity", gen_job("avp", "host.example"), gen_job("avp", "host.example")),
+             ("Session-Id and Acct-Multi-Session-Id AVPs for two identities", gen_job("avp", "a.example"), gen_job("acct", "b.example"))]
+    if rep.tier == "thorough":
+        pairs.append(("typed S6a requests and Session-Id AVPs", gen_job("typed", "mme.example"), gen_job("avp", "mme.example")))
+    n, problems = concur.purity_sweep(pairs, ("/bromelia/_internal_utils.py",), kmax=250, judge=judge)
+    rep.case(("concurrent",), n)
+    rep.notes["concurrent_executions"] = n
+    for desc, k, text in problems:
+        rep.violation(f"{desc} (the first stopped after {k} source lines of the generator): {text}", {"kind": "concurrent", "k": k, "desc": desc})
+
+
 def run(rep):
+    concurrent(rep)
     depth = 5 if rep.tier == "quick" else 6
     rep.rule = (f"TLC: generator model (2 identities, clock <= 2, <= 5 generations), all operation sequences of length {depth} over 7 operations "
                 "executed on the real code under a controlled clock via 3 generation routes + bulk origin update; recorded histories validated "
@@ -248,6 +304,10 @@ Vecs == SetToSeq(Seqs)
 
 def replay(rep, path):
     r = json.load(open(path))["replay"]
+    if r.get("kind") == "concurrent":
+        concurrent(rep)
+        rep.sample(r)
+        return rep.finish()
     drv = Driver(dictx.by_name())
     if r["kind"] == "supplied":
         supplied_bytes(rep)
